@@ -231,7 +231,12 @@ def b_product(reg, eng, st, args, kwargs, node):
     from .vals import tuple_sort
     s, mk, accs = tuple_sort(t[1])
     q = z3.Const(fresh_name("q"), s)
-    return [(st, V(("bag", t), eng.mkset(st, [q], z3.And(z3.Select(ma.x, accs[0](q)), z3.Select(mb.x, accs[1](q))))))]
+    pset = eng.mkset(st, [q], z3.And(z3.Select(ma.x, accs[0](q)), z3.Select(mb.x, accs[1](q))))
+    if getattr(eng, "qdepth", 0) == 0:
+        # the same definition in constructor form (a consequence; lets e-matching find the pair (a, b) without guessing the tuple term)
+        xa, xb = z3.Const(fresh_name("pa"), sort_of(ma.t[1])), z3.Const(fresh_name("pb"), sort_of(mb.t[1]))
+        st.assume(z3.ForAll([xa, xb], z3.Select(pset, mk(xa, xb)) == z3.And(z3.Select(ma.x, xa), z3.Select(mb.x, xb))))
+    return [(st, V(("bag", t), pset))]
 
 
 def b_dict(reg, eng, st, args, kwargs, node):
